@@ -33,9 +33,10 @@ TransportFails ==
     LET cap == Ev.cap dem == Ev.dem cost == Ev.cost a == Ev.alloc IN
     \* quantities were multiplied by 2^qscale and are logged in that unit; a plan that is not a whole number of units cannot
     \* be judged with 32-bit integers: no verdict (none of the solver's plans is like that)
+    (IF Ev.capKept THEN {} ELSE {F("C13", <<"the capacity normalisation changed capacities that already sufficed">>, "t-capacity-inflated")}) \cup
     IF ~Ev.units THEN {F("note", <<"plan not in whole units of 2^qscale", Ev.qscale>>, "t-not-in-units")} ELSE
     (IF TFeasible(cap, dem, a) THEN {} ELSE {F("C13", <<"plan infeasible">>, "t-feasible")}) \cup
-    (IF TFeasible(cap, dem, a) /\ ~CertOK(cap, dem, cost, a, Ev.pot) THEN {F("C13", <<"plan not of minimum cost">>, "t-optimal")} ELSE {}) \cup
+    (IF TFeasible(cap, dem, a) /\ ~CertOKSplit(cap, dem, cost, a, Ev.poth, Ev.potl) THEN {F("C13", <<"plan not of minimum cost">>, "t-optimal")} ELSE {}) \cup
     (IF AssignOK(a, Ev.assign) THEN {} ELSE {F("C13", <<"assignment is not an arg-max of the allocations">>, "t-assign")})
 Transport == Is("Transport") /\ fails' = TransportFails /\ l' = l + 1
 
@@ -46,7 +47,7 @@ T1dFails ==
         cost == [i \in 1..Len(v) |-> [j \in 1..Len(u) |-> Abs(u[j] - v[i])]] IN
     (IF Ev.fate # "ok" THEN {F("C14", <<"abnormal end", Ev.fate>>, "t1d-fate")} ELSE
      (IF TFeasible(d, s, a) THEN {} ELSE {F("C14", <<"plan infeasible">>, "t1d-feasible")}) \cup
-     (IF TFeasible(d, s, a) /\ ~CertOK(d, s, cost, a, Ev.pot) THEN {F("C14", <<"plan not of minimum cost">>, "t1d-optimal")} ELSE {}) \cup
+     (IF TFeasible(d, s, a) /\ ~CertOKSplit(d, s, cost, a, Ev.poth, Ev.potl) THEN {F("C14", <<"plan not of minimum cost">>, "t1d-optimal")} ELSE {}) \cup
      (IF Assign1dOK(u, v, s, d, a, Ev.assign) THEN {} ELSE {F("C14", <<"rounded assignment", Ev.assign>>, "t1d-assign")}))
 T1d == Is("T1d") /\ fails' = T1dFails /\ l' = l + 1
 
